@@ -24,6 +24,7 @@ var (
 	wdOnce      sync.Once
 	// CurrentPlanPath is where the running case's plan was written (for the driver).
 	stallBudget = 20 * time.Second
+	caseCeiling = 45 * time.Second
 )
 
 func caseBegin() {
@@ -31,6 +32,11 @@ func caseBegin() {
 		if v := os.Getenv("VERIF_STALL_BUDGET"); v != "" {
 			if d, err := time.ParseDuration(v); err == nil {
 				stallBudget = d
+			}
+		}
+		if v := os.Getenv("VERIF_CASE_CEILING"); v != "" {
+			if d, err := time.ParseDuration(v); err == nil {
+				caseCeiling = d
 			}
 		}
 		go watchdog()
@@ -76,7 +82,36 @@ func watchdog() {
 			continue
 		}
 		p, v := progress.Load(), vclock.Load()
-		if v != lastV || (p != lastP && false) {
+		// a case that is still running after caseCeiling of real time (cases take milliseconds)
+		if time.Since(time.Unix(0, caseStarted.Load())) > caseCeiling {
+			d := parseStacks(allStacks())
+			verdict, detail := "inconclusive", fmt.Sprintf("case still running after %v of real time", caseCeiling)
+			for _, g := range d {
+				if !g.bubble || !g.lib {
+					continue
+				}
+				if fn, n := deepestRepeat(g.stack); n >= 20 {
+					verdict, detail = "recursion", fmt.Sprintf("library goroutine has %d nested frames of %s (unbounded recursion)", n, fn)
+				}
+			}
+			fmt.Printf("VERIF-WATCHDOG: %s %s\n", verdict, detail)
+			for _, g := range d {
+				if g.bubble && g.lib {
+					st := g.stack
+					if len(st) > 3000 {
+						st = st[:3000] + "\n..."
+					}
+					fmt.Println(st)
+					fmt.Println()
+				}
+			}
+			os.Stdout.Sync()
+			if verdict == "recursion" {
+				os.Exit(3)
+			}
+			os.Exit(4)
+		}
+		if v != lastV {
 			lastV, lastP = v, p
 			lastChange = time.Now()
 			continue
@@ -162,4 +197,27 @@ func judgeStall(d1, d2 []gInfo) (string, string) {
 		}
 	}
 	return "inconclusive", fmt.Sprintf("no virtual-time progress for %v (mutexWait=%q runnable=%v sleepingCallback=%v)", stallBudget, mutexWait, runnable, sleepingCallback)
+}
+
+
+// deepestRepeat returns the library function that occurs most often in one
+// goroutine stack, and how often (runtime.Stack elides the middle of very deep
+// stacks, so 50+50 frames are the most that can be seen).
+func deepestRepeat(stack string) (string, int) {
+	cnt := map[string]int{}
+	best, bn := "", 0
+	for _, l := range strings.Split(stack, "\n") {
+		if !strings.HasPrefix(l, libPrefix) {
+			continue
+		}
+		if i := strings.LastIndex(l, "("); i > 0 {
+			l = l[:i]
+		}
+		l = strings.TrimPrefix(l, libPrefix)
+		cnt[l]++
+		if cnt[l] > bn {
+			best, bn = l, cnt[l]
+		}
+	}
+	return best, bn
 }
